@@ -377,7 +377,7 @@ func c11DiffClass(shared, fresh string) string {
 // texts) along the shortest way.
 
 type c11SrvOp struct {
-	Kind string `json:"kind"` // openP closeP touchP openX closeX changeX saveX
+	Kind string `json:"kind"` // openP closeP touchP openX closeX changeX saveX inlineP openXother
 }
 
 type c11SrvCase struct {
@@ -399,7 +399,7 @@ func c11X(v int) string {
 
 func c11SrvOps() []c11SrvOp {
 	var out []c11SrvOp
-	for _, k := range []string{"openP", "closeP", "touchP", "openX", "closeX", "changeX", "saveX", "inlineP"} {
+	for _, k := range []string{"openP", "closeP", "touchP", "openX", "closeX", "changeX", "saveX", "inlineP", "openXother"} {
 		out = append(out, c11SrvOp{k})
 	}
 	return out
@@ -469,6 +469,14 @@ func c11SrvRun(c *core.Ctx, dir string, root bool, ops []c11SrvOp) (key string, 
 			}
 			editor = disk
 			s.DidOpen(xu, c11X(disk))
+		case "openXother":
+			// X opened with a text that is not the saved one (restored buffer, file
+			// changed on disk behind the editor): the same state as open + change
+			if editor >= 0 {
+				return "", false
+			}
+			editor = 1 - disk
+			s.DidOpen(xu, c11X(editor))
 		case "closeX":
 			if editor < 0 {
 				return "", false
